@@ -13,5 +13,6 @@ CONSTANTS
   MaxStore = 0
   CtxMode = "ignored"
   MaxStalls = 0
+  StaleNextHop = FALSE
 INVARIANTS TSuccessOnlyIf TIgnoresNonCritical TKeysAgree TPoolIsIssued TPoolReturned TDestination TNoResidue
 POSTCONDITION Consumed
